@@ -39,8 +39,17 @@ func H_C07_BlockStore() {
 	flush1 := zzverif.Bool("flush-after-first-add")
 	flagOp := zzverif.Enum("flag-op", 5) // 0 none, 1 trust A, 2 trust C, 3 invalid B, 4 invalid C
 	flush2 := zzverif.Bool("flush-after-second-add")
-	crashAt := zzverif.Enum("crash-before-file-op", 9) // 0: none
-	zzverif.Bound("store session", "two stored blocks of 81..82 bytes (fixed), new blocks C (two arbitrary bytes) and D; add C, optional flush, optional BlockTrusted / BlockInvalid of an old or the new block, add D, optional flush, Close; crash before the k-th create / write, k in 1..8, or none; uncompressed, one data file")
+	crashAt := zzverif.Enum("crash-before-file-op", 9+3*zzverif.Tier()) // 0: none
+	compress, roll := false, false
+	if zzverif.Tier() == 1 {
+		// thorough: also with compression on disk (see H_C16_StoreStepCompressed) and with the first write starting a new data file
+		compress = zzverif.Bool("compress-on-disk")
+		roll = zzverif.Bool("data-file-roll-over")
+		if compress && zzverif.Symbolic() {
+			h16_install_snappy()
+		}
+	}
+	zzverif.Bound("store session", "two stored blocks of 81..82 bytes (fixed), new blocks C (two arbitrary bytes) and D; add C, optional flush, optional BlockTrusted / BlockInvalid of an old or the new block, add D, optional flush, Close; crash before the k-th create / write, k in 1..8 (thorough 11), or none; uncompressed, one data file (thorough: also compressed on disk, also with the first write starting a new data file)")
 
 	writePre := func() {
 		var idx, dat []byte
@@ -53,11 +62,16 @@ func H_C07_BlockStore() {
 			binary.LittleEndian.PutUint32(rec[32:36], uint32(len(bl.Raw)))
 			binary.LittleEndian.PutUint32(rec[36:40], height[bl])
 			binary.LittleEndian.PutUint64(rec[40:48], uint64(len(dat)))
-			binary.LittleEndian.PutUint32(rec[48:52], uint32(len(bl.Raw)))
+			stored := bl.Raw
+			if compress {
+				rec[0] |= BLOCK_COMPRSD | BLOCK_SNAPPED
+				stored = h16_snappy_literal(bl.Raw)
+			}
+			binary.LittleEndian.PutUint32(rec[48:52], uint32(len(stored)))
 			binary.LittleEndian.PutUint32(rec[52:56], uint32(bl.TxCount))
 			copy(rec[56:136], bl.Raw[:80])
 			idx = append(idx, rec[:]...)
-			dat = append(dat, bl.Raw...)
+			dat = append(dat, stored...)
 		}
 		if zzverif.Symbolic() {
 			fs.files = map[string][]byte{dir + "blockchain.new": idx, dir + "blockchain.dat": dat}
@@ -70,7 +84,11 @@ func H_C07_BlockStore() {
 	}
 	type listed struct{ height, blen, txs uint32 }
 	open := func() (*BlockDB, map[[32]byte]listed) {
-		db := NewBlockDBExt(dir, &BlockDBOpts{MaxCachedBlocks: 10})
+		opts := &BlockDBOpts{MaxCachedBlocks: 10, CompressOnDisk: compress}
+		if roll {
+			opts.MaxDataFileSize = 100 // the existing data file is already larger
+		}
+		db := NewBlockDBExt(dir, opts)
 		got := map[[32]byte]listed{}
 		db.LoadBlockIndex(nil, func(ch *Chain, hash, hdr []byte, height, blen, txs uint32) {
 			var h [32]byte
